@@ -1,8 +1,10 @@
 import OnlVerif.Kernel.Replay
+import OnlVerif.Net.FifoReplay
 /-! Line-protocol driver: `driver <mode>` reads cases on stdin and prints the model's observations. -/
 
 def main (args : List String) : IO UInt32 := do
   let stdin ← IO.getStdin
   match args with
   | ["kernel"] => kernelLoop stdin {}; return 0
+  | ["fifo"] => fifoLoop stdin; return 0
   | _ => IO.eprintln "usage: driver <kernel>"; return 2
